@@ -126,7 +126,17 @@ class SBool:
     __radd__ = __add__
 
     def __repr__(self):
-        return f'SBool({self.e})'
+        return _short('SBool', self.e)
+
+
+def _short(kind, e):
+    """cheap text for a proxy: code under test formats values into messages; pretty-printing a large z3 term takes minutes"""
+    try:
+        if isinstance(e, (bool, int)):
+            return f'{kind}({e})'
+        return f'{kind}(#{e.hash() & 0xffffff:x})'
+    except Exception:
+        return f'{kind}(?)'
 
 
 def _b(o):
@@ -222,10 +232,10 @@ class SInt:
         raise HarnessError('symbolic int used where a concrete int is required')
 
     def __repr__(self):
-        return f'SInt({self.e})'
+        return _short('SInt', self.e)
 
     def __format__(self, spec):
-        return f'<sym {self.e}>'
+        return _short('sym', self.e)
 
     def __str__(self):
         return f'<sym>'
